@@ -12,6 +12,13 @@ os.makedirs(dst, exist_ok=True)
 for f in os.listdir(src):
     if f == "patch.diff" or f.endswith("_test.go") or f == "README.md" or f.endswith(".go"):
         shutil.copy(os.path.join(src, f), os.path.join(dst, f))
+main_demo = False
+for sub in os.listdir(src):
+    sp = os.path.join(src, sub)
+    if os.path.isdir(sp) and os.path.exists(os.path.join(sp, "main.go")):   # demonstration is a main program
+        os.makedirs(os.path.join(dst, "demo_main"), exist_ok=True)
+        shutil.copy(os.path.join(sp, "main.go"), os.path.join(dst, "demo_main", "main.go"))
+        main_demo = True
 common = f"/tmp/seed{rnd}-{pid}-out/common"
 if os.path.isdir(common):
     for f in os.listdir(common):
@@ -26,6 +33,8 @@ meta = {
     "check_result": caught,
     "how_run": f"tools/seedcheck.sh {pid} seeded/{pid}-{tag}/patch.diff quick   (scratch copy of /repo with the patch applied; equivalent to git -C /repo apply; ./run.sh {pid} quick; git -C /repo checkout -- .)",
 }
+if main_demo:
+    meta["confirmed_by_lead"] = "tools/seedconfirm_main.sh: scratch git worktree of /repo; `go build ./...`; `go test -vet=off -count=1 ./...` passes with the change; the demonstration (a main program, demo_main/main.go, copied to cmd/) exits non-zero with the change and 0 without it"
 if note:
     meta["history"] = note
 json.dump(meta, open(os.path.join(dst, "meta.json"), "w"), indent=1)
